@@ -286,12 +286,12 @@ Qed.
 
 (** ** fillChecks inverts the planner's CREATE TABLE *)
 Definition check_wf (k : check) : Prop :=
-  (k_name k = [] \/ name_ok (k_name k)) /\ wrapped (k_expr k).
+  (k_name k = [] \/ name_ok (k_name k)) /\ wrapped (k_expr k) /\ may_wrap (k_expr k) = k_expr k.
 
 Lemma check_wf_ok k : check_wf k -> check_ok (kopt k) /\ expr_ok (k_expr k).
 Proof.
-  intros [Hn Hw]. destruct (check_expr_wrapped _ Hw) as (Hce & e' & He'). split.
-  - split; [|exact Hw]. unfold kopt. cbn [fst]. destruct (k_name k) eqn:E; [exact I|].
+  intros [Hn [Hw Hmw]]. destruct (check_expr_wrapped _ Hw Hmw) as (Hce & e' & He'). split.
+  - split; [|exact (conj Hw Hmw)]. unfold kopt. cbn [fst]. destruct (k_name k) eqn:E; [exact I|].
     destruct Hn as [Hn|Hn]; [discriminate|]. exact Hn.
   - unfold expr_ok. rewrite Hce. split; [rewrite He'; discriminate|].
     destruct Hw as (b & p & -> & _). change (ch_lp :: b ++ [ch_rp]) with ((ch_lp :: b) ++ [ch_rp]).
